@@ -9,7 +9,7 @@ from ..logic import atoms_of, equivalent, f_not, fstr
 from ..pm import pmatch
 from ..pyfacts import Fn, loops, py_guard
 from ..stage import Effect, Return, Store
-from ..term import tstr
+from ..term import subterms, tstr
 
 EVENT = "transactron/evlog/event.py"
 A = lambda t: ("atom", t)  # noqa: E731
@@ -79,16 +79,34 @@ def event_tables(ctx):
             elif t[0] == "op" and t[1] == "is" and ("n", "bool") in t[2:] and ft in t[2:]:
                 dec["bool"] = v
         v = rets[0].value
+        # a field annotated as a tuple: the stored (JSON) form is a list (F44)
+        tup = [vv for t, vv in ex.config if any(x == ("n", "tuple") for x in subterms(t)) and any(x == ft for x in subterms(t))]
         if dec.get("type") and dec.get("enum"):
             want, k = ("call", ft, (raw,), ()), "enum"
         elif dec.get("type") and dec.get("bool"):
             want, k = ("call", ("n", "bool"), (raw,), ()), "bool"
+        elif any(tup) and all(vv for t, vv in ex.config if pmatch("isinstance(Q_r, list)", t) == {"r": raw}):
+            want, k = ("call", ("n", "tuple"), (raw,), ()), "tuple"
         else:
             want, k = raw, "plain"
         kinds_c.add(k)
         okc = okc and v == want
-    ctx.check(okc and kinds_c == {"enum", "bool", "plain"}, "C33.field-conversion", cv.site, "_convert_field", found="; ".join(f"{[(tstr(t)[:40], v) for t, v in ex.config]} -> {tstr(r.value)}" for ex in cv.exs for r in ex.of(Return))[:400],
-              required="field_type(raw) for enum types, bool(raw) for bool, raw otherwise")
+    ctx.check(okc and kinds_c == {"enum", "bool", "plain", "tuple"}, "C33.field-conversion", cv.site, "_convert_field", found="; ".join(f"{[(tstr(t)[:40], v) for t, v in ex.config]} -> {tstr(r.value)}" for ex in cv.exs for r in ex.of(Return))[:400],
+              required="field_type(raw) for enum types, bool(raw) for bool, tuple(raw) for a field annotated as a tuple, raw otherwise")
+    # statics are kept in the representation a saved and loaded log has, from the moment they are registered: a value that
+    # JSON changes (a tuple, a dict with int keys) would otherwise differ between the captured and the loaded log (F44)
+    sr = Fn(ctx.repo, EVENT, "static_to_raw", "C33")
+    val = sr.param(0)
+    oks = True
+    seen_s = set()
+    for ex in sr.exs:
+        rets = [r for r in ex.of(Return) if r.callid is None]
+        en = [vv for t, vv in ex.config if pmatch("isinstance(Q_v, enum.Enum)", t) is not None or pmatch("isinstance(Q_v, Enum)", t) is not None]
+        inner = ("a", val, "value") if en and en[-1] else val
+        seen_s.add(bool(en and en[-1]))
+        oks = oks and len(rets) == 1 and rets[0].value == ("call", ("a", ("n", "json"), "loads"), (("call", ("a", ("n", "json"), "dumps"), (inner,), ()),), ())
+    ctx.check(oks and seen_s == {True, False}, "C33.static-canonical", sr.site, "static_to_raw", found="; ".join(tstr(r.value) for ex in sr.exs for r in ex.of(Return)),
+              required="json.loads(json.dumps(value)) of the value (of its .value for an enum member): the stored static is what a loaded log holds")
     # the annotation splitter
     sp = Fn(ctx.repo, EVENT, "_split_hint", "C33")
     hint = sp.param(0)
